@@ -17,6 +17,7 @@ CONSTANTS Users, Epochs, Versions, Values, NodeNames, AzksEpochs,
           HasCache,                  \* the manager was created with a cache
           CachePutBeforeDbWrite,     \* TRUE = pinned behaviour (cache filled before the database write)
           BulkVersionsUsesEpoch,     \* TRUE = pinned behaviour of get_user_state_versions inside a transaction
+          FlushIgnoresCleanFlag,     \* TRUE = as the code: flush_cache always empties the cache (FALSE: a flush that is skipped while cleaning is disabled)
           FillPolicy                 \* what a read that missed does with the database's answer when it arrives:
                                      \* "always" (pinned: put it into the cache), "if_absent", "if_same_generation" (repaired)
 
@@ -27,9 +28,10 @@ VARIABLES db,          \* set of records in the database (at most one per key)
           canClean,    \* cache cleaning enabled
           rejectNext,  \* the database refuses the next write
           inflight,    \* reads that missed the cache: the database has answered, the answer has not reached the manager yet
-          gen          \* cache write generation: bumped by every write-path put and by flush
+          gen,         \* cache write generation: bumped by every write-path put and by flush
+          extStale     \* keys written to the database by ANOTHER instance since the last flush: the cache may be behind for them
 
-svars == <<db, txnActive, txnMods, cacheAzks, cacheMap, canClean, rejectNext, inflight, gen>>
+svars == <<db, txnActive, txnMods, cacheAzks, cacheMap, canClean, rejectNext, inflight, gen, extStale>>
 
 KeyOf(r) == IF r[1] = "azks" THEN <<"azks">>
             ELSE IF r[1] = "node" THEN <<"node", r[2]>>
@@ -157,12 +159,12 @@ BumpGen == gen' = IF HasCache THEN (gen + 1) % 4 ELSE gen      \* bounded counte
 
 (* a write of the record set R outside a transaction, or the commit's write *)
 DbWrite(R, res) ==
-  /\ UNCHANGED inflight
+  /\ UNCHANGED <<inflight, extStale>>
   /\ IF rejectNext
     THEN /\ res = "err"
          /\ rejectNext' = FALSE
          /\ db' = db
-         /\ IF CachePutBeforeDbWrite THEN CachePut(R) /\ BumpGen ELSE UNCHANGED <<cacheAzks, cacheMap, gen>>
+         /\ IF CachePutBeforeDbWrite THEN CachePut(R) /\ BumpGen ELSE UNCHANGED <<cacheAzks, cacheMap, gen, extStale>>
     ELSE /\ res = "ok"
          /\ rejectNext' = FALSE
          /\ db' = Upsert(db, R)
@@ -173,7 +175,7 @@ SetRecs(R, res) ==       \* set (|R| = 1) and batch_set
   /\ IF txnActive
        THEN /\ res = "ok"
             /\ txnMods' = Upsert(txnMods, R)
-            /\ UNCHANGED <<db, txnActive, cacheAzks, cacheMap, canClean, rejectNext, inflight, gen>>
+            /\ UNCHANGED <<db, txnActive, cacheAzks, cacheMap, canClean, rejectNext, inflight, gen, extStale>>
        ELSE /\ DbWrite(R, res)
             /\ UNCHANGED <<txnActive, txnMods, canClean>>
 
@@ -181,7 +183,7 @@ Begin(res) ==
   /\ res = ~txnActive
   /\ txnActive' = TRUE
   /\ canClean' = FALSE
-  /\ UNCHANGED <<db, txnMods, cacheAzks, cacheMap, rejectNext, inflight, gen>>
+  /\ UNCHANGED <<db, txnMods, cacheAzks, cacheMap, rejectNext, inflight, gen, extStale>>
 
 (* commit_transaction: drains the log first; refuses a log without the epoch record *)
 Commit(res) ==
@@ -191,9 +193,9 @@ Commit(res) ==
          /\ txnMods' = {}
          /\ canClean' = TRUE
          /\ IF txnMods = {}
-              THEN res = "ok" /\ UNCHANGED <<db, cacheAzks, cacheMap, rejectNext, inflight, gen>>
+              THEN res = "ok" /\ UNCHANGED <<db, cacheAzks, cacheMap, rejectNext, inflight, gen, extStale>>
               ELSE IF ~\E r \in txnMods : r[1] = "azks"
-                THEN res = "err" /\ UNCHANGED <<db, cacheAzks, cacheMap, rejectNext, inflight, gen>>
+                THEN res = "err" /\ UNCHANGED <<db, cacheAzks, cacheMap, rejectNext, inflight, gen, extStale>>
                 ELSE DbWrite(txnMods, res)
 
 Rollback(res) ==
@@ -201,18 +203,29 @@ Rollback(res) ==
     THEN res = "err" /\ UNCHANGED svars
     ELSE /\ res = "ok"
          /\ txnActive' = FALSE /\ txnMods' = {} /\ canClean' = TRUE
-         /\ UNCHANGED <<db, cacheAzks, cacheMap, rejectNext, inflight, gen>>
+         /\ UNCHANGED <<db, cacheAzks, cacheMap, rejectNext, inflight, gen, extStale>>
 
+(* flush_cache: afterwards reads reflect storage, also for what another instance wrote *)
 Flush ==
-  /\ cacheAzks' = {} /\ cacheMap' = {}
-  /\ BumpGen
-  /\ UNCHANGED <<db, txnActive, txnMods, canClean, rejectNext, inflight>>
+  /\ IF FlushIgnoresCleanFlag \/ canClean
+       THEN cacheAzks' = {} /\ cacheMap' = {} /\ BumpGen
+       ELSE UNCHANGED <<cacheAzks, cacheMap, gen>>
+  /\ extStale' = {}
+  /\ inflight' = {}        \* (answers still in flight are from before the flush; the generation guard drops them)
+  /\ UNCHANGED <<db, txnActive, txnMods, canClean, rejectNext>>
+
+(* another instance (its own manager) writes to the same database *)
+ExtWrite(R) ==
+  /\ R # {} /\ OneP(R)
+  /\ db' = Upsert(db, R)
+  /\ extStale' = extStale \cup { KeyOf(r) : r \in R }
+  /\ UNCHANGED <<txnActive, txnMods, cacheAzks, cacheMap, canClean, rejectNext, inflight, gen>>
 
 (* a read that misses fills the cache with what the database returned *)
 ReadFill(K) ==
   LET missed == { k \in K : ~(txnActive /\ Lookup(txnMods, k) # {}) /\ CacheHit(k) = {} } IN
   /\ CachePut(UNION { Lookup(db, k) : k \in missed })
-  /\ UNCHANGED <<db, txnActive, txnMods, canClean, rejectNext, inflight, gen>>
+  /\ UNCHANGED <<db, txnActive, txnMods, canClean, rejectNext, inflight, gen, extStale>>
 
 (* the same read in two steps: the database answers (GetIssue), the answer reaches the manager later *)
 (* (GetComplete) - other calls may run in between                                                     *)
@@ -220,7 +233,7 @@ GetIssue(k) ==
   /\ HasCache
   /\ ~(txnActive /\ Lookup(txnMods, k) # {}) /\ CacheHit(k) = {}
   /\ inflight' = inflight \cup { [key |-> k, val |-> Lookup(db, k), g |-> gen] }
-  /\ UNCHANGED <<db, txnActive, txnMods, cacheAzks, cacheMap, canClean, rejectNext, gen>>
+  /\ UNCHANGED <<db, txnActive, txnMods, cacheAzks, cacheMap, canClean, rejectNext, gen, extStale>>
 
 GetComplete(f) ==
   /\ f \in inflight
@@ -229,7 +242,7 @@ GetComplete(f) ==
                     [] FillPolicy = "if_absent" -> CacheHit(f.key) = {}
                     [] FillPolicy = "if_same_generation" -> f.g = gen
      IN IF fill THEN CachePut(f.val) ELSE UNCHANGED <<cacheAzks, cacheMap>>
-  /\ UNCHANGED <<db, txnActive, txnMods, canClean, rejectNext, gen>>
+  /\ UNCHANGED <<db, txnActive, txnMods, canClean, rejectNext, gen, extStale>>
 
 (* tombstone_value_states(user, epoch): rewrites values, keeps versions *)
 TombRecs(u, e) ==
@@ -240,23 +253,23 @@ Tombstone(u, e, res) ==
   ELSE IF TombRecs(u, e) = {} THEN res = "ok" /\ UNCHANGED svars
   ELSE SetRecs(TombRecs(u, e), res)
 
-SetClean(b) == canClean' = b /\ UNCHANGED <<db, txnActive, txnMods, cacheAzks, cacheMap, rejectNext, inflight, gen>>
+SetClean(b) == canClean' = b /\ UNCHANGED <<db, txnActive, txnMods, cacheAzks, cacheMap, rejectNext, inflight, gen, extStale>>
 
 (* environment: time passes (any cached items expire), memory pressure / timed cleaning drops items *)
 Tick == /\ HasCache
         /\ \E X \in SUBSET cacheMap :
              cacheMap' = (cacheMap \ X) \cup { [rec |-> c.rec, expired |-> TRUE] : c \in X }
-        /\ UNCHANGED <<db, txnActive, txnMods, cacheAzks, canClean, rejectNext, inflight, gen>>
+        /\ UNCHANGED <<db, txnActive, txnMods, cacheAzks, canClean, rejectNext, inflight, gen, extStale>>
 Pressure == /\ HasCache /\ canClean
             /\ \E X \in SUBSET cacheMap : cacheMap' = cacheMap \ X
-            /\ UNCHANGED <<db, txnActive, txnMods, cacheAzks, canClean, rejectNext, inflight, gen>>
+            /\ UNCHANGED <<db, txnActive, txnMods, cacheAzks, canClean, rejectNext, inflight, gen, extStale>>
 RejectNext == /\ ~rejectNext /\ rejectNext' = TRUE
-              /\ UNCHANGED <<db, txnActive, txnMods, cacheAzks, cacheMap, canClean, inflight, gen>>
+              /\ UNCHANGED <<db, txnActive, txnMods, cacheAzks, cacheMap, canClean, inflight, gen, extStale>>
 
 Init ==
   /\ db = {} /\ txnActive = FALSE /\ txnMods = {}
   /\ cacheAzks = {} /\ cacheMap = {} /\ canClean = TRUE /\ rejectNext = FALSE
-  /\ inflight = {} /\ gen = 0
+  /\ inflight = {} /\ gen = 0 /\ extStale = {}
 
 ---------------------------------------------------------------------------
 (* invariants *)
@@ -276,7 +289,7 @@ TxnReadsEqualPostCommit ==
 
 (* C16: the cache never changes what a read returns *)
 CacheTransparent ==
-  \A k \in AllKeys :
+  \A k \in AllKeys \ extStale :
      MGet(k) = IF txnActive /\ Lookup(txnMods, k) # {} THEN Lookup(txnMods, k) ELSE Lookup(db, k)
 
 (* C16: after a flush the next read of the epoch record reflects storage (action property) *)
